@@ -95,6 +95,14 @@ func streamIsolation(o *Out, r *rand.Rand, n int, thorough bool) {
 		"func mk() { var c = 0; return func() { c++; return c } }\ng = mk()\ng()\nprobe(g())",
 		"probe(1 + 4095)\nprobe(-1 - 1)\nx = 4095\nx++\nprobe(x)",
 		"defer probe(\"d\")\ntry { throw \"e\" } catch err { probe(err) }",
+		// values made by one run (struct values with reference fields, nested list / map literals) are made afresh by the next run
+		"s = make(struct { Seen map[string]int64, N int64 })\ns.Seen[\"k\" + len(s.Seen)] = 1\ns.N++\nprobe([len(s.Seen), s.N])",
+		"s = make(struct { In struct { M map[string]bool }, L []int64 })\ns.In.M[\"x\"] = true\ns.L += 1\nprobe([len(s.In.M), len(s.L)])\nt = make(struct { In struct { M map[string]bool }, L []int64 })\nprobe([len(t.In.M), len(t.L)])",
+		"b = [[0, 0, 0], [0, 0, 0], [0, 0, 0]]\nb[0][0] += 1\nb[1][1] += 2\nb[2][0] += 1\nprobe(b)",
+		"cfg = {\"tags\": [\"a\"], \"n\": {\"k\": 0}}\ncfg.tags[0] = cfg.tags[0] + \"!\"\ncfg.n.k += 5\nprobe(cfg)",
+		"func grid() { return [[0, 0], [0, 0]] }\ng = grid()\ng[0][0] = 7\nh = grid()\nh[1][1] = 8\nprobe([g, h, grid()])",
+		"acc = []\nfor i = 0; i < 3; i++ {\nrow = [[0], [0]]\nrow[0][0] += i + 1\nacc += [row]\n}\nprobe(acc)",
+		"c = make(chan int64, 2)\ns = make(struct { C chan int64 })\nprobe(s.C == nil)\nt = make([][]int64, 2)\nt[0] = [1]\nt[0][0]++\nprobe(t)",
 	}
 	for i := 0; i < n+len(extra); i++ {
 		var src string
@@ -348,7 +356,6 @@ func isolationTypes(o *Out) {
 		wg2.Wait()
 	}
 }
-
 
 // isolationHistories: what one run does inside function bodies, blocks and modules (types it defines, names it binds, depth
 // it recurses to) must not show in an unrelated run in another environment - one after the other and at the same time.
